@@ -398,7 +398,8 @@ Definition o_report (st : ostate) : ostate * list prep :=
     32 a reported packet was never sent, or its SSRC / sequence numbers / size / departure differ from the send
     33 status, arrival time or ECN differ from what the latest feedback about that packet encodes
     34 the set of packets in the report differs from [cursor, highest acknowledged]
-    36 (F15, known) IsTWCC is false for a packet tracked by its TWCC sequence number *)
+    36 (F15, known) IsTWCC is false for a packet tracked by its TWCC sequence number
+    90 generator produced feedback outside the oracle's assumptions (see wf_fbpktb below) *)
 Definition static_eqb (x y : prep) : bool :=
   (p_ssrc x =? p_ssrc y) && (p_ctr x =? p_ctr y) && (p_rtpseq x =? p_rtpseq y) &&
   (p_twseq x =? p_twseq y) && (p_size x =? p_size y) && (p_dep x =? p_dep y).
@@ -445,8 +446,29 @@ Fixpoint fb_walk (st : ostate) (last : Z) (ops : list rop) (outs : list (list pr
       end
   end.
 
+(* what the oracle assumes about the feedback of a case (code 90 when the generator breaks it):
+   TWCC packets have a 16-bit base and at least as many deltas as delta-carrying symbols
+   below the status count (rtcp.Unmarshal's guarantee); a CCFB packet has at most one report
+   block per SSRC.  Under these assumptions the verdict "no code" is EQUIVALENT to "the
+   reports equal Spec/RtpfbSpec.v rspec_run" (Properties/C09b.v C09_fb_oracle_iff). *)
+Fixpoint nodupb (l : list Z) : bool :=
+  match l with [] => true | x :: t => negb (existsb (Z.eqb x) t) && nodupb t end.
+Definition blk_ssrc (b : rblock) : Z := fst (fst b).
+Definition wf_fbpktb (f : fbpkt) : bool :=
+  match f with
+  | FTw base count _ cs ds =>
+      (0 <=? base) && (base <? 65536) &&
+      Nat.leb (ndeltas (firstn (Z.to_nat count) (symbols cs))) (length ds)
+  | FCf _ bs => nodupb (map blk_ssrc bs)
+  | FOther => true
+  end.
+Definition wf_ropb (o : rop) : bool :=
+  match o with RRead _ pkts => forallb wf_fbpktb pkts | _ => true end.
+
 Definition fb_case_codes (c : fb_case) : list nat :=
   let '(cops, outs) := c in
-  nodup_nat (fb_walk (mkO [] [] 0 None 0) (-1) (flat_map rexpand cops) (map (fun l => unflat_rep l (length l)) outs)).
+  let ops := flat_map rexpand cops in
+  if negb (forallb wf_ropb ops) then [90%nat]
+  else nodup_nat (fb_walk (mkO [] [] 0 None 0) (-1) ops (map (fun l => unflat_rep l (length l)) outs)).
 
 Definition fb_spec_failures (cases : list fb_case) : list (nat * nat) := codes_of fb_case_codes cases 0.
